@@ -125,6 +125,17 @@ class Lowering:
                 return cs
             return [z3.Implies(z3.And(*g), c) for c in cs]
 
+        def GP(polys, cs):
+            """Laws of exp whose statement went through exp(ln u) = u hold only where every guarded logarithm that occurs
+            in the exponents is defined (u > 0): state them under those conditions."""
+            g = {}
+            for at in T.collect_atoms([q for q in polys]):
+                if at.kind == "L" and at.guard:
+                    g[at.id] = larg(at) > 0
+            if not g:
+                return cs
+            return [z3.Implies(z3.And(*g.values()), c) for c in cs]
+
         def escales(a):
             out = [(None, None)]
             for f, lf in sorted(a.scales or (), key=lambda t: t[0].key()):
@@ -228,7 +239,7 @@ class Lowering:
                             new += 1
                 rp = self.p(r)
                 for a, b in prs:
-                    self.side.append(self.z[a.id] == self.z[b.id] * rp)
+                    self.side += GP([a.args[0], b.args[0]], [self.z[a.id] == self.z[b.id] * rp])
         # product law on differences that are already expressible:  E(a) = E(b) * E(a-b)
         if len(E) <= PAIR_CAP:
             known = set(self.z)
@@ -237,12 +248,12 @@ class Lowering:
                     continue
                 r = T.mkE(T.p_sub(a.args[0], b.args[0]))
                 if all(i in known for i in r.atoms()) and len(r.terms) <= 40:
-                    self.side.append(self.z[a.id] == self.z[b.id] * self.p(r))
+                    self.side += GP([a.args[0], b.args[0]], [self.z[a.id] == self.z[b.id] * self.p(r)])
                     self._prod_done.add((min(a.id, b.id), max(a.id, b.id)))
             for a, b in itertools.combinations_with_replacement(E, 2):
                 r = T.mkE(T.p_add(a.args[0], b.args[0]))
                 if all(i in known for i in r.atoms()) and len(r.terms) <= 40:
-                    self.side.append(self.z[a.id] * self.z[b.id] == self.p(r))
+                    self.side += GP([a.args[0], b.args[0]], [self.z[a.id] * self.z[b.id] == self.p(r)])
         for (_, _), apps in U.items():
             for a, b in itertools.combinations(apps, 2):
                 same = z3.And(*[self.p(x) == self.p(y) for x, y in zip(a.args[1:], b.args[1:])]) \
